@@ -58,7 +58,7 @@ PROPS["C12"] = {
                 "Redis format descriptions (ziplist.c, intset.c, zipmap.c, quicklist.c, lzf_d.c, rdb.c) as written down in Spec/Compact.lean and Spec/Rdb.lean",
                 "bytes.Reader / io.ReadFull / sliceBuffer semantics; a Go run-time panic inside DecodeDump is not recovered (observed as such)"],
     "assumptions": ["strings and element counts < 2^32 (the encoder writes uint32(len)); compact blobs < 2 GiB (sliceBuffer.Seek limit)",
-                    "ziplists carry their entry count (the 65535 'unknown' marker is outside Spec.Compact.zlWF)",
+                    "ziplists of any entry count (the count field saturates at 65535 and the reader walks the entries: D23, fixed)",
                     "file_roundtrip: every value is below the loader's 16 MiB chunk limit (larger hashes: C01 chunks_concat); idle/freq not written by the encoder",
                     "float texts longer than 800 significant digits are outside the driver's ParseFloat stand-in"],
 }
